@@ -58,30 +58,50 @@ def run(ctx):
             continue
         by.setdefault(k, []).append(s)
     chk.counts["sites_outside_definition"] = n_out
-    for k, ss in sorted(by.items()):
-        c = classes.get(k)
+    # unwrap() and expect("reason") are one kind of site: the classes `..::unwrap|X` and `..::expect|X` are pooled
+    def canon(k):
+        return k.replace("::expect|", "::unwrap|")
+    pool, members = {}, {}
+    for k, ss in by.items():
+        pool.setdefault(canon(k), []).extend((k, s) for s in ss)
+    for k, c in classes.items():
+        members.setdefault(canon(k), []).append(c)
+    for ck, kss in sorted(pool.items()):
+        ss = [s for _, s in kss]
+        mem = members.get(ck, [])
         where = sorted({"%s@%s" % (s["fn"].split("::")[-1], s["loc"]) for s in ss})
-        if c is None:
+        k = sorted({k for k, _ in kss})[0] if len({k for k, _ in kss}) == 1 else ck
+        cap = sum(c["max"] for c in mem)
+        if not mem:
             fns = sorted({s["fn"] for s in ss})
             chk.violation("R06.1", "new-class:%s" % k, "unaudited may-panic site class %s in %s" % (k, fns[:4]), ss[0]["loc"])
-        elif len(ss) > c["max"]:
-            known = set(c.get("where", []))
+        elif len(ss) > cap:
+            known = set(w for c in mem for w in c.get("where", []))
             newfn = sorted({s["fn"].split("::")[-1] for s in ss} - known)
             chk.violation("R06.1", "count:%s" % k, "%d sites of class %s, audit covers %d%s; sites: %s" % (
-                len(ss), k, c["max"], (" - new in %s" % newfn) if newfn else "", where[:10]), ss[0]["loc"])
+                len(ss), k, cap, (" - new in %s" % newfn) if newfn else "", where[:10]), ss[0]["loc"])
         else:
-            gs = [g for g in c.get("guards", ["none"]) if g != "none"]
             lost = []
-            for s in ss:
-                for g in gs:
-                    okg, why = guards.GUARDS[g](fb, fb.bodies[s["fn"]], s)
-                    if not okg:
-                        lost.append((s, g, why))
+            for k0, s in kss:
+                cands = [classes[k0]] if k0 in classes else mem
+                fails = []
+                for c in cands:
+                    bad = []
+                    for g in [g for g in c.get("guards", ["none"]) if g != "none"]:
+                        okg, why = guards.GUARDS[g](fb, fb.bodies[s["fn"]], s)
+                        if not okg:
+                            bad.append((g, why))
+                    if not bad:
+                        fails = []
+                        break
+                    fails = bad
+                for g, why in fails:
+                    lost.append((s, g, why))
             if lost:
                 for s, g, why in lost:
                     chk.violation("R06.1", "guard:%s:%s" % (s["fn"], k), "may-panic site in %s lost the invariant that protects it (%s): %s" % (s["fn"], g, why), s["loc"])
             else:
-                chk.ok("R06.1", "class %s" % k, "%d <= %d: %s" % (len(ss), c["max"], c["reason"][:100]), ss[0]["loc"])
+                chk.ok("R06.1", "class %s" % k, "%d <= %d: %s" % (len(ss), cap, mem[0]["reason"][:100]), ss[0]["loc"])
     chk.counts["functions_in_scope"] = len(R)
     chk.counts["sites"] = len(pop)
     chk.counts["classes"] = len(by)
